@@ -363,6 +363,39 @@ var _ = a[
 )
 `,
 		"raw-strings": "package p\n\nimport (\n\t\"b\"\n\n\t\"a\"\n)\n\nvar s = `line1\nline2\nline3`\n\nfunc f() {\n\tg(1, `x\ny`)\n\th(`only\narg`, 2)\n\t_ = []string{\n\t\t`el\nem`,\n\t\t\"plain\",\n\t}\n\tk(`a\n\nb`, // trailing\n\t\t3)\n}\n\nconst c = `a\n` + \"b\"\n\nvar _ = a.X + b.Y\n",
+		"multiline-trailing-block-comments": `package p
+
+import (
+	"a" /* imp
+	ort */
+	"b"
+)
+
+func f(
+	a int,
+	b string, /* x
+	y */
+) {
+}
+
+type T struct {
+	x int /* first
+	second */
+	y int
+}
+
+var (
+	v = 1 /* one
+	two */
+	w = 2
+)
+
+type (
+	A int /* a
+	b */
+	B int
+)
+`,
 		"label-at-end": `package p
 
 func f(x int) {
